@@ -445,6 +445,146 @@ theorem cB_ok (lib : Placed p B) (Γ : Gam) (env : Env) (F D : Nat) :
         | none => exact Or.inr ⟨a, rfl, rfl⟩
         | some b => simp [hea, heb] at hn
 
+
+/-- `!truth_is_defeat(c)` where the effective defeat is `halt`: the machine halts (on this
+timeline) exactly when the condition is true, and falls through when it is false -/
+theorem cD_ok (lib : Placed p B) (Γ : Gam) (env : Env) (F D : Nat) :
+    ∀ (b : Core.B) (pc o : Nat) (m : Mem),
+      isD b = true →
+      PlacedAt p pc (cD (cxOf p ck B) Γ pc o b) →
+      pc + (cD (cxOf p ck B) Γ pc o b).length ≤ B →
+      Fr p m F D → VarsOK p.w Γ env m F o → boundB (Γ.map Prod.fst) b = true → pkB p.w o b ≤ D → p.w ≤ o →
+      (evalB (256 ^ p.w) (8 * p.w) env b = some false →
+        ∃ m', Reach (sphinx p) ⟨pc, m⟩ [] ⟨pc + (cD (cxOf p ck B) Γ pc o b).length, m'⟩ ∧ Keep p.w m m' (F - o)) ∧
+      (evalB (256 ^ p.w) (8 * p.w) env b = some true → Halts (sphinx p) ⟨pc, m⟩) ∧
+      (evalB (256 ^ p.w) (8 * p.w) env b = none → ck = true →
+        ∃ m', Reach (sphinx p) ⟨pc, m⟩ [] ⟨B + off_division_by_zero, m'⟩) := by
+  have hw := lib.hw
+  intro b
+  induction b with
+  | lit v =>
+    intro pc o m _ hpl hB fr _ _ _ _
+    cases v with
+    | true =>
+      refine ⟨fun h => by simp [evalB] at h, fun _ => ?_, fun h => by simp [evalB] at h⟩
+      exact Halts.halt (sys := sphinx p) (step_halt (m := m) (placed_one (by simpa [cD] using hpl)))
+    | false =>
+      refine ⟨fun _ => ⟨m, by simpa [cD] using Reach.refl, Keep.refl _ _ _⟩, fun h => by simp [evalB] at h,
+        fun h => by simp [evalB] at h⟩
+  | not b _ => intro pc o m hd; simp [isD] at hd
+  | and l r _ _ => intro pc o m hd; simp [isD] at hd
+  | or l r ihl ihr =>
+    intro pc o m hd hpl hB fr hvars hb hpk ho
+    simp only [isD, Bool.and_eq_true] at hd
+    simp only [boundB, Bool.and_eq_true] at hb
+    simp only [pkB] at hpk
+    simp only [cD] at hpl hB ⊢
+    obtain ⟨hpl1, hpl2⟩ := hpl.append
+    rw [List.length_append] at hB ⊢
+    have h1 := ihl pc o m hd.1 hpl1 (by omega) fr hvars hb.1 (by omega) ho
+    refine ⟨fun hf => ?_, fun ht => ?_, fun hn hck => ?_⟩
+    · simp only [evalB, Option.bind_eq_bind] at hf
+      cases hv : evalB (256 ^ p.w) (8 * p.w) env l with
+      | none => simp [hv] at hf
+      | some v =>
+        cases v with
+        | true => simp [hv] at hf
+        | false =>
+          simp only [hv, Option.bind_some, Bool.false_eq_true, if_false] at hf
+          obtain ⟨m1, r1, k1⟩ := h1.1 hv
+          have h2 := ihr (pc + (cD (cxOf p ck B) Γ pc o l).length) o m1 hd.2 hpl2 (by omega) (fr.keep k1)
+            (hvars.keep k1 (Nat.le_refl _) (Nat.le_refl _)) hb.2 (by omega) ho
+          obtain ⟨m2, r2, k2⟩ := h2.1 hf
+          exact ⟨m2, by simpa [Nat.add_assoc] using r1.trans r2, k1.trans' k2⟩
+    · simp only [evalB, Option.bind_eq_bind] at ht
+      cases hv : evalB (256 ^ p.w) (8 * p.w) env l with
+      | none => simp [hv] at ht
+      | some v =>
+        cases v with
+        | true => exact h1.2.1 hv
+        | false =>
+          simp only [hv, Option.bind_some, Bool.false_eq_true, if_false] at ht
+          obtain ⟨m1, r1, k1⟩ := h1.1 hv
+          have h2 := ihr (pc + (cD (cxOf p ck B) Γ pc o l).length) o m1 hd.2 hpl2 (by omega) (fr.keep k1)
+            (hvars.keep k1 (Nat.le_refl _) (Nat.le_refl _)) hb.2 (by omega) ho
+          exact r1.1 (h2.2.1 ht)
+    · simp only [evalB, Option.bind_eq_bind] at hn
+      cases hv : evalB (256 ^ p.w) (8 * p.w) env l with
+      | none => exact h1.2.2 hv hck
+      | some v =>
+        cases v with
+        | true => simp [hv] at hn
+        | false =>
+          simp only [hv, Option.bind_some, Bool.false_eq_true, if_false] at hn
+          obtain ⟨m1, r1, k1⟩ := h1.1 hv
+          have h2 := ihr (pc + (cD (cxOf p ck B) Γ pc o l).length) o m1 hd.2 hpl2 (by omega) (fr.keep k1)
+            (hvars.keep k1 (Nat.le_refl _) (Nat.le_refl _)) hb.2 (by omega) ho
+          obtain ⟨m2, r2⟩ := h2.2.2 hn hck
+          exact ⟨m2, by simpa using r1.trans r2⟩
+  | cmp op l r =>
+    intro pc o m _ hpl hB fr hvars hb hpk ho
+    simp only [boundB, Bool.and_eq_true] at hb
+    simp only [pkB] at hpk
+    rcases hcl : cE (cxOf p ck B) Γ pc o (cxOf p ck B).r0 l (!isSafe r) with ⟨c1, vl, p1⟩
+    rcases hcr : cE (cxOf p ck B) Γ (pc + c1.length) (if p1 = true then o + (cxOf p ck B).w else o) (cxOf p ck B).r1 r false
+      with ⟨c2, vr0, p2⟩
+    rcases hg2 : getOp (cxOf p ck B) (cxOf p ck B).r1 vr0 with ⟨c2', vr⟩
+    rcases hg3 : getOp (cxOf p ck B) (cxOf p ck B).r0 vl with ⟨c3, vl'⟩
+    have hcode : cD (cxOf p ck B) Γ pc o (.cmp op l r)
+        = (c1 ++ c2 ++ c2' ++ c3) ++ [.hcond (cmpHalt op) (vl'.arg (cxOf p ck B)) (vr.arg (cxOf p ck B))] := by
+      simp only [cD, hcl, hcr, hg2, hg3]
+    rw [hcode] at hpl hB ⊢
+    generalize hpre : c1 ++ c2 ++ c2' ++ c3 = pre at *
+    obtain ⟨hplP, hplH⟩ := hpl.append
+    simp only [List.length_append, List.length_cons, List.length_nil] at hB ⊢
+    have hops := operands_ok (ck := ck) lib Γ env F D l r pc o m c1 vl p1 hcl c2 vr0 p2 hcr c2' vr hg2 c3 vl' hg3
+      (by rw [hpre]; exact hplP) (by rw [hpre]; omega) fr hvars hb.1 hb.2 (by omega) (by omega) ho
+    rw [hpre] at hops
+    have key : ∀ a b, evalE (256 ^ p.w) (8 * p.w) env l = some a → evalE (256 ^ p.w) (8 * p.w) env r = some b →
+        ∃ m4, Reach (sphinx p) ⟨pc, m⟩ [] ⟨pc + pre.length, m4⟩ ∧ Keep p.w m m4 (F - o) ∧
+          Sphinx.step p ⟨pc + pre.length, m4⟩ =
+            if haltCond (256 ^ p.w) (cmpHalt op) a b then .halt else .next ⟨pc + pre.length + 1, m4⟩ none := by
+      intro a b hea heb
+      obtain ⟨m4, r4, k4, hargl, hargr, hvl, hvr⟩ := hops.1 a b hea heb
+      have fr4 := fr.keep k4
+      have s := step_hcond (m := m4) (placed_one hplH) (ev_arg_any hw fr4 _ vl' hargl) (ev_arg_any hw fr4 _ vr hargr)
+      rw [hvl, hvr] at s
+      unfold Prog.M at s
+      exact ⟨m4, r4, k4, s⟩
+    refine ⟨fun hf => ?_, fun ht => ?_, fun hn hck => ?_⟩
+    · simp only [evalB, Option.bind_eq_bind] at hf
+      cases hea : evalE (256 ^ p.w) (8 * p.w) env l with
+      | none => simp [hea] at hf
+      | some a =>
+      cases heb : evalE (256 ^ p.w) (8 * p.w) env r with
+      | none => simp [hea, heb] at hf
+      | some b =>
+      simp only [hea, heb, Option.bind_some, Option.pure_def, Option.some.injEq] at hf
+      obtain ⟨m4, r4, k4, s⟩ := key a b hea heb
+      rw [hf] at s
+      simp only [Bool.false_eq_true, if_false] at s
+      exact ⟨m4, by simpa [evl, Nat.add_assoc] using r4.trans (Reach.of_next (sys := sphinx p) s), k4⟩
+    · simp only [evalB, Option.bind_eq_bind] at ht
+      cases hea : evalE (256 ^ p.w) (8 * p.w) env l with
+      | none => simp [hea] at ht
+      | some a =>
+      cases heb : evalE (256 ^ p.w) (8 * p.w) env r with
+      | none => simp [hea, heb] at ht
+      | some b =>
+      simp only [hea, heb, Option.bind_some, Option.pure_def, Option.some.injEq] at ht
+      obtain ⟨m4, r4, k4, s⟩ := key a b hea heb
+      rw [ht] at s
+      simp only [if_true] at s
+      exact r4.1 (Halts.halt (sys := sphinx p) s)
+    · simp only [evalB, Option.bind_eq_bind] at hn
+      apply hops.2 _ hck
+      cases hea : evalE (256 ^ p.w) (8 * p.w) env l with
+      | none => exact Or.inl rfl
+      | some a =>
+        cases heb : evalE (256 ^ p.w) (8 * p.w) env r with
+        | none => exact Or.inr ⟨a, rfl, rfl⟩
+        | some b => simp [hea, heb] at hn
+
 end
 
 end HidVerif.Core
